@@ -933,6 +933,14 @@ pub fn c04_input_mode(rng: &mut Rng, ordered: bool) -> ExecInput {
     if rng.chance(35) { st.push("(function_definition name: (identifier) @n2) {\n  let @n2.owner.tag = (source-text @n2)\n}\n".into()); }
     // class K7 (known finding): `owner` defined through a scope that reads `owner`
     if rng.chance(4) { st.push("(function_definition name: (identifier) @n3) {\n  let @n3.owner.owner = 1\n}\n".into()); }
+    // a scoped variable whose VALUE reads the same-named variable of another node (a chain through one name: forcing the
+    // name for the reader must be able to re-enter the same name for the value)
+    let same_name_chain = rng.chance(30);
+    if same_name_chain {
+        st.push("(module) @mc {\n  let @mc.chn = \"root\"\n}\n".into());
+        st.push("(module (function_definition) @fc) @mc2 {\n  let @fc.chn = @mc2.chn\n}\n".into());
+        if rng.chance(50) { st.push("(function_definition body: (block (function_definition) @gc)) @fc2 {\n  let @gc.chn = [@fc2.chn, (start-row @gc)]\n}\n".into()); }
+    }
     if !ordered && rng.chance(15) { st.push("(function_definition) @again {\n  let @again.k = 99\n}\n".into()); }
     let ndefs = st.len();
     // reads through other capture names / list elements / nested scopes
@@ -946,6 +954,7 @@ pub fn c04_input_mode(rng: &mut Rng, ordered: bool) -> ExecInput {
         st.push("(pass_statement) @ps {\n  node @ps.scope\n  attr (@ps.scope) kind = \"own\"\n}\n".into());
     }
     if two_names { st.push(if rng.chance(50) { "[(pass_statement) (return_statement)] @st {\n  node q\n  attr (q) top = @st.top, depth = @st.depth\n}\n" } else { "[(pass_statement) (return_statement)] @st {\n  node q\n  attr (q) depth = @st.depth, top = @st.top\n  attr (q) again = @st.depth\n}\n" }.into()); }
+    if same_name_chain { st.push("(function_definition) @fr {\n  node r\n  attr (r) chain = @fr.chn\n}\n".into()); }
     if rng.chance(10) { st.push("(call function: (identifier) @f) {\n  node r\n  attr (r) k = @f.k\n}\n".into()); }   // not inherited: undefined unless defined on this node
     if inherit && rng.chance(30) { st.push("(return_statement) @r {\n  node q\n  edge q -> @r.scope\n  attr (q -> @r.scope) via = \"return\"\n}\n".into()); }
     // the same scoped name on the outer and the inner node of a left-nested construct (same kind, same start position)
@@ -1131,6 +1140,20 @@ pub fn c05x_gen(rng: &mut Rng, n: usize) -> Vec<Case> {
         let base = gen_source(rng);
         let k = rng.below(4);
         let src = if rng.chance(50) { inject_faults(rng, &base, k) } else { base };
+        // definitions that depend on each other in a CYCLE (through scoped variables: the only way to build one): lazy
+        // forcing re-enters a thunk that is being forced and must answer with an error, read or not read
+        if rng.chance(12) {
+            let x = *rng.pick(&[
+                "(module) @cm {\n  let @cm.ca = @cm.cb\n  let @cm.cb = @cm.ca\n}\n",
+                "(module) @cm {\n  let @cm.ca = @cm.cb\n  let @cm.cb = @cm.ca\n}\n\n(module) @cm2 {\n  node r\n  attr (r) v = @cm2.ca\n}\n",
+                "(module) @cm {\n  let @cm.ca = [(length @cm.cb), 1]\n  let @cm.cb = [@cm.ca]\n  print @cm.cb\n}\n",
+                "(module) @cm {\n  let @cm.cs = @cm.cs\n}\n",
+                "(module) @cm {\n  let @cm.ca = @cm.cb\n}\n\n(module) @cm3 {\n  let @cm3.cb = @cm3.cc\n  let @cm3.cc = (plus 1 @cm3.ca)\n  node r\n  edge r -> @cm3.cc\n}\n",
+                "(module (_)* @xs) @cm {\n  let l = @cm.cl\n  let @cm.cl = [ x for x in @xs ]\n  let @cm.cq = l\n  let @cm.cr = (length @cm.cr)\n}\n",
+            ]);
+            let pos = rng.below(p.stanzas.len() + 1);
+            p.stanzas.insert(pos, x.to_string());
+        }
         let mut dsl = p.text();
         // other layouts of the same program: several statements on one line (statement columns beyond non-ASCII
         // text of the same line), tabs for indentation, non-ASCII string literals
